@@ -74,13 +74,14 @@ def gen_probs(r, k, dyadic):
     return [Fraction(p, den) for p in parts]
 
 
-def gen_instance(r):
-    n_base = r.choice([0, 1, 2, 2, 3, 3])
-    n_nucl = r.choice([2, 2, 3])
+def gen_instance(r, wide=False):
+    """wide: 11..18 haplotypes over 4 SNVs and 4..8 samples, so that allele numbers reach two digits"""
+    n_base = r.choice([0, 1, 2, 2, 3, 3]) if not wide else 4
+    n_nucl = r.choice([2, 2, 3]) if not wide else 3
     pool = set()
     if r.random() < 0.75 or n_base == 0:
         pool.add(tuple([0] * n_base))
-    want = 1 if n_base == 0 else r.randint(2, 6)
+    want = 1 if n_base == 0 else r.randint(2, 6) if not wide else r.randint(11, 18)
     for _ in range(want * 6):
         if len(pool) >= want:
             break
@@ -88,11 +89,11 @@ def gen_instance(r):
     pool = sorted(pool)
     r.shuffle(pool)
     dyadic = r.random() < 0.6
-    n_samples = r.choice([1, 1, 2, 2, 3, 4])
+    n_samples = r.choice([1, 1, 2, 2, 3, 4]) if not wide else r.randint(4, 8)
     posts = []
     for _ in range(n_samples):
         ploidy = r.choice([1, 2, 2, 3, 4, 4, 6])
-        sub = r.sample(pool, r.randint(1, len(pool)))
+        sub = r.sample(pool, r.randint(1, len(pool)) if not wide else r.randint(4, len(pool)))
         gens = set()
         for _ in range(r.randint(1, 6) * 3):
             gens.add(tuple(sorted(r.choice(sub) for _ in range(ploidy))))
@@ -216,6 +217,8 @@ def _check_call(chk, drv, posts_np, posts_py, n_base, thr, dyadic, origin, fns, 
     chk.count(f"call:{origin}"); chk.count(f"samples={len(posts_py)}")
     chk.count("thr=0" if thr == 0 else "thr=1" if thr == 1 else "thr=other")
     chk.count("ref-called" if ref_obs else "ref-masked")
+    if len(impl_haps) > 10:
+        chk.count("two-digit-allele-numbers")
     chk.case(req, nontrivial, sample={"request": req[:300], "impl": str((impl_haps, bool(ref_obs))), "model": ans[:300]})
     # ---- property oracles
     if not impl_haps or impl_haps[0] != ref:
@@ -376,113 +379,200 @@ def check_labels(chk, drv, r, PGD, gaa, gpa, n_cases):
 # CLI: recorded calls + text
 # --------------------------------------------------------------------------------------
 
+def _floats(text):
+    """comma separated VCF numbers -> list of floats, None for '.'; None when the field is absent"""
+    if text is None or text == "":
+        return None
+    return [None if x == "." else float(x) for x in text.split(",")]
+
+
+def cli_run(chk, drv, r, fns, ds, d, thr, report, mcmc, S, A):
+    """one `mchap assemble` run: the calls recorded inside the program are checked at function level and every printed record is
+    compared with what the RECORDED per-sample posteriors imply (GT / AFP / AOP / GP), whatever subset of fields was requested"""
+    call_posterior_haplotypes, gaa, gpa, mset = fns
+    recorded = []
+    orig = A.call_posterior_haplotypes
+
+    def rec(posteriors, threshold=0.01, _orig=orig, _rec=recorded):
+        out = _orig(posteriors, threshold=threshold)
+        _rec.append((list(posteriors), float(threshold), out))
+        return out
+    argv = list(mcmc)
+    if thr is not None:
+        argv += ["--haplotype-posterior-threshold", thr]
+    if report:
+        argv += ["--report", *report]
+    A.call_posterior_haplotypes = rec
+    try:
+        out, code, err = S.run_program(ds.assemble_argv(*argv))
+    finally:
+        A.call_posterior_haplotypes = orig
+    chk.count("cli:assemble-runs")
+    chk.count("cli:report=" + ("+".join(report) if report else "none"))
+    chk.count("cli:threshold=" + ("default" if thr is None else thr))
+    chk.count(f"cli:samples={len(ds.samples)}")
+    rcase = {"dataset": d, "threshold": thr, "report": list(report), "n_samples": len(ds.samples)}
+    if code != 0:
+        masked_gp = "GP" in report and "IndexError" in err
+        chk.violation("mchap assemble aborted on a synthetic data set", {**rcase, "error": err[:500]}, SIG_F3 if masked_gp else "C13/cli/abort")
+        return
+    _, recs = S.parse_vcf_text(out)
+    T = 0.2 if thr is None else float(thr)        # the documented default
+    if len(recorded) != len(recs):
+        chk.violation("assemble did not call call_posterior_haplotypes once per record", {**rcase, "calls": len(recorded), "records": len(recs)},
+                      "C13/cli/one-call-per-record")
+    for rec_, (posts_np, t_used, (haps, ref_obs)) in zip(recs, recorded):
+        case = {**rcase, "record": rec_["line"][:600]}
+        if t_used != T:
+            chk.violation("--haplotype-posterior-threshold (default 0.2) is not the threshold passed to call_posterior_haplotypes",
+                          {**case, "passed": t_used}, "C13/cli/threshold")
+        n_base = int(posts_np[0].genotypes.shape[-1])
+        posts_py = []
+        for p in posts_np:
+            gens = [tuple(tuple(int(a) for a in h) for h in g) for g in p.genotypes]
+            posts_py.append((int(p.genotypes.shape[1]), gens, [float(x) for x in p.probabilities]))
+        # function level on what the program really passed (general probabilities: equality cases are margins)
+        check_call(chk, drv, posts_np, posts_py, n_base, t_used, False, "cli-recorded", fns)
+        # ---- the printed record
+        masked = "REFMASKED" in rec_["INFO"]
+        chk.count("cli:record-refmasked" if masked else "cli:record-ref-called")
+        if masked == bool(ref_obs) or len(rec_["ALT"]) != len(haps) - 1:
+            chk.violation("printed REFMASKED / ALT count differ from what call_posterior_haplotypes returned",
+                          {**case, "ref_observed": bool(ref_obs), "n_haplotypes": len(haps)}, "C13/cli/record-vs-call")
+            continue
+        n_all = 1 + len(rec_["ALT"])
+        if n_all > 10:
+            chk.count("cli:record-with-two-digit-allele-numbers")
+        if "NOA" in rec_["FILTER"]:
+            chk.count("cli:record-NOA")
+        impl_haps = [tuple(int(a) for a in h) for h in haps]
+        ref = impl_haps[0]
+        called = set(impl_haps[1:]) | ({ref} if ref_obs else set())
+        labels = {h.tobytes(): i for i, h in enumerate(haps)}
+        if not ref_obs:
+            labels.pop(haps[0].tobytes())
+        aop_max = [0.0] * n_all
+        have_aop = True
+        if len(rec_["samples"]) != len(posts_np):
+            chk.violation("the record does not have one sample column per recorded posterior", {**case, "columns": len(rec_["samples"])}, "C13/cli/columns")
+            continue
+        for smp, pnp, (ploidy, gens, pr) in zip(rec_["samples"], posts_np, posts_py):
+            st = exact_stats(gens, pr)
+            if all(h not in called for h in st):
+                chk.count("cli:sample-with-no-called-haplotype")
+            # ---- GT: what the recorded posterior implies
+            gt = smp.get("GT", "")
+            alleles = gt.replace("|", "/").split("/")
+            mode_g, _ = pnp.mode_genotype_support().mode_genotype()
+            exp = [int(x) for x in gaa(mode_g, labels)]
+            exp_s = "/".join("." if a < 0 else str(a) for a in exp)
+            mg = [tuple(int(a) for a in h) for h in mode_g]
+            want = sorted(impl_haps.index(h) for h in mg if h in called)
+            want_s = "/".join([str(a) for a in want] + ["."] * (len(mg) - len(want)))
+            scase = {**case, "GT": gt, "mode_genotype": [list(h) for h in mg], "haplotypes": [list(h) for h in impl_haps], "ref_called": bool(ref_obs)}
+            if masked and "0" in alleles:
+                chk.violation("GT uses allele 0 in a REFMASKED record", scase, "C13/cli/masked-zero")
+            elif gt != want_s:
+                chk.violation("printed GT is not the sorted allele numbers of the sample's called genotype with '.' exactly for its excluded haplotypes",
+                              {**scase, "expected": want_s}, "C13/cli/gt-vs-posterior")
+            if exp_s != want_s:
+                chk.violation("_genotype_as_alleles on the recorded mode genotype: not the sorted listed alleles with '.' for excluded haplotypes",
+                              {**scase, "impl": exp_s, "expected": want_s}, "C13/_genotype_as_alleles/dot-iff-excluded")
+            chk.count("cli:GT-with-dot" if "." in alleles else "cli:GT-complete")
+            if any(a != "." and int(a) >= n_all for a in alleles):
+                chk.violation("GT uses an allele number that is not listed", scase, "C13/cli/gt-range")
+            # ---- AFP / AOP
+            exp_f = [float(st[h][1] / ploidy) if h in st else 0.0 for h in impl_haps]
+            exp_o = [float(st[h][0]) if h in st else 0.0 for h in impl_haps]
+            for key, expv in (("AFP", exp_f), ("AOP", exp_o)):
+                vals = _floats(smp.get(key))
+                if key in report:
+                    if vals is None or len(vals) != n_all or any(v is None for v in vals):
+                        chk.violation(f"{key} does not have one value per allele", {**scase, key: smp.get(key)}, "C13/cli/R-length")
+                        if key == "AOP":
+                            have_aop = False
+                        continue
+                    if any(not (abs(v - e) <= 0.00051) for v, e in zip(vals, expv)):
+                        chk.violation(f"printed {key} is not the posterior {'frequency' if key == 'AFP' else 'occurrence probability'} of each listed "
+                                      "haplotype in the sample's recorded posterior", {**scase, key: vals, "expected": expv}, "C13/cli/AFP-AOP-vs-posterior")
+                    if key == "AFP" and sum(vals) > 1 + 0.0005 * n_all + 1e-9:
+                        chk.violation("printed AFP sums to more than one", {**scase, "AFP": vals}, "C13/cli/AFP-sum")
+                    if key == "AOP":
+                        for i, x in enumerate(vals):
+                            aop_max[i] = max(aop_max[i], x)
+                elif key == "AOP":
+                    have_aop = False
+            # ---- GP
+            if "GP" in report:
+                gp = _floats(smp.get("GP"))
+                size = math.comb(n_all + ploidy - 1, ploidy)
+                exp_gp = [0.0] * size
+                for g, p_ in zip(gens, pr):
+                    if all(h in called for h in g):
+                        exp_gp[vcf_index([impl_haps.index(h) for h in g])] += float(p_)
+                if gp is None or len(gp) != size or any(v is None for v in gp):
+                    chk.violation("printed GP does not have the record's G cardinality", {**scase, "GP": (smp.get("GP") or "")[:200], "expected_length": size},
+                                  SIG_F3 if masked else "C13/cli/GP")
+                else:
+                    if sum(gp) > 1 + 0.0005 * size + 1e-9:
+                        chk.violation("printed GP sums to more than one", {**scase, "GP_sum": sum(gp)}, "C13/cli/GP")
+                    bad = [i for i, (v, e) in enumerate(zip(gp, exp_gp)) if not (abs(v - e) <= 0.00051)]
+                    if bad:
+                        i = bad[0]
+                        chk.violation("printed GP is not the recorded posterior laid out in G order over the listed alleles "
+                                      "(genotypes with an excluded haplotype carry no mass)",
+                                      {**scase, "position": i, "printed": gp[i], "expected": exp_gp[i], "n_wrong": len(bad)}, "C13/cli/GP-vs-posterior")
+                    if masked:
+                        # positions whose genotype contains allele 0: the lowest allele of position i is 0
+                        from mchap.jitutils import index_as_genotype_alleles
+                        with0 = [i for i, v in enumerate(gp) if v > 0 and int(index_as_genotype_alleles(i, ploidy)[0]) == 0]
+                        if with0:
+                            chk.violation("GP gives mass to a genotype containing allele 0 in a REFMASKED record",
+                                          {**scase, "position": with0[0], "value": gp[with0[0]]}, "C13/cli/masked-zero-GP")
+        # the iff on the text, using the printed (3-decimal) AOP; values within the rounding margin are skipped
+        if have_aop and "AOP" in report:
+            for i, m in enumerate(aop_max):
+                if abs(m - T) <= 0.00051:
+                    chk.count("cli:aop-rounding-margin(not compared)")
+                    continue
+                meets = m >= T
+                if i == 0:
+                    if meets == masked:
+                        chk.violation("REFMASKED is not 'the reference reached the threshold in no sample' (printed AOP)",
+                                      {**case, "max_AOP_ref": m}, "C13/cli/refmasked-iff")
+                elif not meets:
+                    chk.violation("an ALT allele reaches the threshold in no sample (printed AOP)", {**case, "allele": i, "max_AOP": m},
+                                  "C13/cli/alt-iff")
+        chk.case("cli:" + rec_["line"][:200], len(rec_["ALT"]) >= 1)
+
+
 def cli_part(chk, drv, r, tier, fns, PGD):
     from . import synth as S
     import mchap.application.assemble as A
 
     work = tempfile.mkdtemp(prefix="verif-c13-")
-    n_ds = {"warm": 1, "quick": 2, "thorough": 6}[tier]
+    n_ds = {"warm": 1, "quick": 5, "thorough": 15}[tier]
     mcmc = ["--mcmc-steps", "200", "--mcmc-burn", "80", "--mcmc-seed", str(r.randrange(1, 10 ** 6))]
+    reports = [("AFP", "AOP", "GP"), ("AOP",), ("GP",), ("AFP", "AOP"), (), ("GP", "AFP"), ("AOP", "GP", "ACP")]
     try:
         for d in range(n_ds):
-            ds = S.make_dataset(r, os.path.join(work, f"ds{d}"), n_samples=3, n_loci=3 if tier != "thorough" else 4,
-                                ploidies=r.choice([(2, 4), (4, 2, 2)]), max_snvs=3, depth=(3, 10) if d % 2 else (6, 16))
-            thr = r.choice(["0.2", "0.5"]) if d % 2 == 0 else r.choice(["0.9", "1.0", "0.75"])
-            recorded = []
-            orig = A.call_posterior_haplotypes
-
-            def rec(posteriors, threshold=0.01, _orig=orig, _rec=recorded):
-                out = _orig(posteriors, threshold=threshold)
-                _rec.append((list(posteriors), float(threshold), out))
-                return out
-            A.call_posterior_haplotypes = rec
-            try:
-                out, code, err = S.run_program(ds.assemble_argv(*mcmc, "--haplotype-posterior-threshold", thr, "--report", "AFP", "AOP"))
-            finally:
-                A.call_posterior_haplotypes = orig
-            chk.count("cli:assemble-runs")
-            if code != 0:
-                chk.violation("mchap assemble aborted on a synthetic data set", {"dataset": d, "error": err[:500]}, "C13/cli/abort")
-                continue
-            _, recs = S.parse_vcf_text(out)
-            T = float(thr)
-            if len(recorded) != len(recs):
-                chk.violation("assemble did not call call_posterior_haplotypes once per record", {"calls": len(recorded), "records": len(recs)},
-                              "C13/cli/one-call-per-record")
-            any_masked = False
-            for rec_, (posts_np, t_used, (haps, ref_obs)) in zip(recs, recorded):
-                case = {"dataset": d, "record": rec_["line"][:600], "threshold": thr}
-                if t_used != T:
-                    chk.violation("--haplotype-posterior-threshold is not the threshold passed to call_posterior_haplotypes", case, "C13/cli/threshold")
-                n_base = int(posts_np[0].genotypes.shape[-1])
-                posts_py = []
-                for p in posts_np:
-                    gens = [tuple(tuple(int(a) for a in h) for h in g) for g in p.genotypes]
-                    posts_py.append((int(p.genotypes.shape[1]), gens, [float(x) for x in p.probabilities]))
-                # function level on what the program really passed (general probabilities: equality cases are margins)
-                check_call(chk, drv, posts_np, posts_py, n_base, t_used, False, "cli-recorded", fns)
-                # ---- the printed record
-                masked = "REFMASKED" in rec_["INFO"]
-                any_masked = any_masked or masked
-                chk.count("cli:record-refmasked" if masked else "cli:record-ref-called")
-                if masked == bool(ref_obs) or len(rec_["ALT"]) != len(haps) - 1:
-                    chk.violation("printed REFMASKED / ALT count differ from what call_posterior_haplotypes returned",
-                                  {**case, "ref_observed": bool(ref_obs), "n_haplotypes": len(haps)}, "C13/cli/record-vs-call")
-                n_all = 1 + len(rec_["ALT"])
-                aop_max = [0.0] * n_all
-                for smp, pnp in zip(rec_["samples"], posts_np):
-                    gt = smp.get("GT", "")
-                    alleles = gt.replace("|", "/").split("/")
-                    if masked and "0" in alleles:
-                        chk.violation("GT uses allele 0 in a REFMASKED record", {**case, "GT": gt}, "C13/cli/masked-zero")
-                    if any(a != "." and int(a) >= n_all for a in alleles):
-                        chk.violation("GT uses an allele number that is not listed", {**case, "GT": gt}, "C13/cli/gt-range")
-                    aop = [float(x) for x in smp.get("AOP", "").split(",") if x not in ("", ".")]
-                    afp = [float(x) for x in smp.get("AFP", "").split(",") if x not in ("", ".")]
-                    if len(aop) != n_all or len(afp) != n_all:
-                        chk.violation("AOP / AFP do not have one value per allele", {**case, "AOP": smp.get("AOP"), "AFP": smp.get("AFP")}, "C13/cli/R-length")
-                        continue
-                    if sum(afp) > 1 + 0.0005 * n_all + 1e-9:
-                        chk.violation("printed AFP sums to more than one", {**case, "AFP": afp}, "C13/cli/AFP-sum")
-                    for i, x in enumerate(aop):
-                        aop_max[i] = max(aop_max[i], x)
-                    # '.' exactly for excluded haplotypes of the called genotype: n('.') = ploidy - sum of listed dosages is not
-                    # readable from rounded text; checked at function level on the recorded posteriors above
-                # the iff on the text, using the printed (3-decimal) AOP; values within the rounding margin are skipped
-                for i, m in enumerate(aop_max):
-                    if abs(m - T) <= 0.00051:
-                        chk.count("cli:aop-rounding-margin(not compared)")
-                        continue
-                    meets = m >= T
-                    if i == 0:
-                        if meets == masked:
-                            chk.violation("REFMASKED is not 'the reference reached the threshold in no sample' (printed AOP)",
-                                          {**case, "max_AOP_ref": m}, "C13/cli/refmasked-iff")
-                    elif not meets:
-                        chk.violation("an ALT allele reaches the threshold in no sample (printed AOP)", {**case, "allele": i, "max_AOP": m},
-                                      "C13/cli/alt-iff")
-                chk.case("cli:" + rec_["line"][:200], len(rec_["ALT"]) >= 1)
-            # ---- the same data with --report GP (candidate defect F3 when a record is REFMASKED)
-            if True:
-                out2, code2, err2 = S.run_program(ds.assemble_argv(*mcmc, "--haplotype-posterior-threshold", thr, "--report", "GP"))
-                chk.count("cli:assemble-GP-runs")
-                if code2 != 0:
-                    sig = SIG_F3 if (any_masked and "IndexError" in err2) else "C13/cli/abort"
-                    chk.violation("mchap assemble --report GP aborts (IndexError in _genotype_posterior_as_array on a REFMASKED record)"
-                                  if sig == SIG_F3 else "mchap assemble --report GP aborted",
-                                  {"dataset": d, "threshold": thr, "error": err2[:500]}, sig)
-                else:
-                    _, recs2 = S.parse_vcf_text(out2)
-                    for rec_ in recs2:
-                        n_all = 1 + len(rec_["ALT"])
-                        for smp, s in zip(rec_["samples"], ds.samples):
-                            gp = [x for x in smp.get("GP", "").split(",") if x != ""]
-                            size = math.comb(n_all + ds.ploidy[s] - 1, ds.ploidy[s])
-                            vals = [float(x) for x in gp if x != "."]
-                            if len(gp) != size or sum(vals) > 1 + 0.0005 * size + 1e-9:
-                                chk.violation("printed GP does not have the record's G cardinality or sums to more than one",
-                                              {"record": rec_["line"][:400], "sample": s, "GP": smp.get("GP"), "expected_length": size},
-                                              SIG_F3 if "REFMASKED" in rec_["INFO"] else "C13/cli/GP")
+            kind = d % 5
+            if kind == 0:      # common thresholds
+                shape = dict(n_samples=3, ploidies=r.choice([(2, 4), (4, 2, 2)]), depth=(6, 16)); thr = r.choice(["0.2", "0.5"])
+            elif kind == 1:    # high thresholds on shallow data: the reference is often present below the threshold (REFMASKED, '.' in GT)
+                shape = dict(n_samples=r.choice([2, 3]), ploidies=r.choice([(2, 4), (4, 2, 2)]), depth=(3, 10)); thr = r.choice(["0.9", "1.0", "0.75", "0.95"])
+            elif kind == 2:    # a single sample, one locus without any read, threshold 1.0: nothing is listed (NOA)
+                shape = dict(n_samples=1, ploidies=(r.choice([2, 4]),), depth=(3, 8), features={"nodepth"}); thr = "1.0"
+            elif kind == 3:    # threshold 0 on many shallow samples: every haplotype of every posterior is listed (two-digit allele numbers)
+                shape = dict(n_samples=5, ploidies=(4, 2, 4), depth=(2, 5), max_snvs=4); thr = "0"
+            else:              # option omitted: the default (0.2) must be what is used
+                shape = dict(n_samples=2, ploidies=(4, 2), depth=(4, 12), features={"nodepth"}); thr = None
+            ds = S.make_dataset(r, os.path.join(work, f"ds{d}"), n_loci=3 if tier != "thorough" else 4,
+                                **{"max_snvs": 3, **shape})
+            report = reports[0] if kind in (1, 3) else r.choice(reports)
+            cli_run(chk, drv, r, fns, ds, d, thr, report, mcmc, S, A)
+            if kind == 1:      # the same data with other subsets of the optional fields
+                cli_run(chk, drv, r, fns, ds, d, thr, r.choice(reports[1:]), mcmc, S, A)
     finally:
         shutil.rmtree(work, ignore_errors=True)
 
@@ -509,8 +599,11 @@ def run(tier, replay=None):
     post = PGD(np.array([[[0, 1], [0, 1]]], dtype=np.int8), np.array([1.0]))
     check_call(chk, drv, [post], [(2, [((0, 1), (0, 1))], [1.0])], 2, 0.2, True, "F3-minimal", fns)
 
-    for _ in range(n_inst):
-        n_base, pool, dyadic, posts = gen_instance(r)
+    for i_inst in range(n_inst):
+        wide = i_inst % 10 == 9
+        n_base, pool, dyadic, posts = gen_instance(r, wide=wide)
+        if wide:
+            chk.count("instance:wide(>=11 haplotypes, 4..8 samples)")
         posts_py = [(p, gens, [float(x) for x in pr]) for p, gens, pr in posts]
         posts_np = [make_posterior(PGD, p, gens, pr, n_base) for p, gens, pr in posts_py]
         occs = sorted({float(o) for _, gens, pr in posts_py for o, _ in exact_stats(gens, pr).values()})
